@@ -110,6 +110,28 @@ def _backward(j):
         return None
 
 
+def _forward_ld_range(j):
+    """model log-dets of the forward map on inputs within 8 ulps of the job's inputs -> (row-wise min, row-wise max) or None"""
+    try:
+        eps = torch.finfo(j.x.dtype).eps
+        lds = []
+        for k in (-8, -3, -1, 1, 3, 8):
+            xp = j.x.detach() * (1.0 + k * eps) + (k * torch.finfo(j.x.dtype).tiny)
+            jj = make_job(j.e, j.t, xp, j.ctx, False, j.regime, tag='backward')
+            if jj.kind != 'ok' or not jj.reqs:
+                continue
+            run_jobs([jj])
+            out, ld, cond, alts, err = R.decode(jj.resp[-1], jj.prec)
+            if err or len(ld) != j.ld.numel():
+                continue
+            lds.append(ld)
+        if len(lds) < 2:
+            return None
+        return [min(v) for v in zip(*lds)], [max(v) for v in zip(*lds)]
+    except Exception:
+        return None
+
+
 def compare(ctx, j, prop, observables=('out', 'ld'), atol=1e-9, rtol=1e-9, check_cond=True, branch_extra=''):
     """-> True if the job agrees.  Records cases/disagreements in ctx."""
     e = j.e
@@ -220,6 +242,18 @@ def compare(ctx, j, prop, observables=('out', 'ld'), atol=1e-9, rtol=1e-9, check
                         ok2 = False; break
             if ok2:
                 ok = True; why = ''; br += '/backward-error'
+    if not ok and not j.inverse and why.startswith('logabsdet[') and j.tag != 'backward':
+        # a forward log-det that differs from the model's by more than exp(|ld|) ulps: where the local slope is tiny (a nearly flat
+        # end of a bin, |ld| ~ 25) the log-det f''/f' is far more sensitive to the last ulp of the input than the value is.  Accept
+        # when the implementation's log-det lies within the range the MODEL returns on inputs a few ulps away (the implementation is
+        # then the model at an input within rounding distance) and the outputs agreed.
+        rng_ld = _forward_ld_range(j)
+        if rng_ld is not None:
+            lo, hi = rng_ld
+            if all(close(a, b, atol * 10 + (kap[i] if math.isfinite(kap[i]) else 0.0), rtol * 10)
+                   or (lo[i] - atol * 10 - 0.05 * (hi[i] - lo[i]) <= a <= hi[i] + atol * 10 + 0.05 * (hi[i] - lo[i]))
+                   for i, (a, b) in enumerate(zip(ldl, ld))):
+                ok = True; why = ''; br += '/ld-within-ulp-range'
     nontriv = any(abs(a - b) > 1e-12 for a, b in zip(yl, j.x.reshape(-1).tolist())) or any(abs(v) > 1e-12 for v in ldl)
     ctx.case(key=(e.name, j.regime, j.inverse, j.prec, j.tag), branch=br, nontrivial=nontriv, n=n,
              sample={'entry': e.name, 'regime': j.regime, 'inverse': j.inverse, 'x': j.x.reshape(-1).tolist()[:4],
